@@ -311,6 +311,31 @@ theorem inv_step {s s' : State} {a : Act} (h : Inv s) (hs : step s a = some s') 
         simp at hmem
         exact h.exited p j hp (by first | exact hmem | exact List.mem_of_mem_erase hmem)
     · cases hs
+  | fork p q i =>
+    simp only [step] at hs
+    split at hs
+    · rename_i hg
+      simp at hs; subst hs
+      constructor
+      · intro j
+        by_cases hj : j = i
+        · subst hj; simp [incref, ← h.count j]
+        · have : (i == j) = false := by simpa using (Ne.symm hj)
+          simp [incref, hj, this, h.count j]
+      · intro j
+        by_cases hj : j = i
+        · subst hj; simp [incref, hg.2.2.2]
+        · simp [incref, hj, h.hosted j]
+      · intro c j hm
+        simp at hm
+        simpa [incref] using h.item c j hm
+      · intro j; simpa [incref] using h.shm j
+      · intro p' j hp hm
+        simp [incref] at hm hp
+        rcases hm with ⟨rfl, rfl⟩ | hm
+        · rw [hg.2.2.1] at hp; cases hp
+        · exact h.exited p' j hp hm
+    · cases hs
   | call p i =>
     simp only [step] at hs
     split at hs
